@@ -12,6 +12,7 @@ import (
 	"fmt"
 	"net"
 	"sync"
+	"sync/atomic"
 	"testing"
 	"testing/synctest"
 	"time"
@@ -314,7 +315,30 @@ func vpRelayCase(r *vfRng, st *vfStats) vfCase {
 	wantNack := r.chance(60)
 	P := cfg.ProbeTimeout
 	at := time.Duration(1+r.n(600))*time.Millisecond + time.Duration(1+2*r.n(400))*time.Microsecond
-	mode := r.n(6) // 0 silent, 1 ack, 2 ack twice, 3 foreign ack only, 4 late ack and early foreign, 5 the relay's own ping cannot be sent
+	// 0 silent, 1 ack, 2 ack twice, 3 foreign ack only, 4 late ack and early foreign, 5 the relay's own ping cannot be sent,
+	// 6 the target acks in time but handing the ack on to the requester fails once, 7 a third party sends a nack
+	// carrying the relay's own fresh number before the target's ack
+	mode := r.n(8)
+	var arrivals [][]int64
+	var localSeq uint32
+	acks, nacks, acksOK := 0, 0, 0
+	var mu sync.Mutex
+	var handlerPanicked atomic.Bool
+	if mode == 6 {
+		failed := false
+		tr.sendErr = func(to string, mt messageType) error {
+			mu.Lock()
+			defer mu.Unlock()
+			if mt == ackRespMsg && to == "10.0.0.50:7946" && !failed {
+				failed = true
+				// the relay did try to pass the ack on
+				acks++
+				acksOK++
+				return &net.OpError{Op: "write", Net: "udp", Err: fmt.Errorf("sendto: no buffer space available")}
+			}
+			return nil
+		}
+	}
 	if mode == 5 {
 		tr.sendErr = func(to string, mt messageType) error {
 			if mt == pingMsg && to == "10.0.0.9:7946" {
@@ -323,10 +347,6 @@ func vpRelayCase(r *vfRng, st *vfStats) vfCase {
 			return nil
 		}
 	}
-	var arrivals [][]int64
-	var localSeq uint32
-	acks, nacks, acksOK := 0, 0, 0
-	var mu sync.Mutex
 	tr.onSend = func(to string, mt messageType, body []byte) {
 		mu.Lock()
 		defer mu.Unlock()
@@ -335,8 +355,23 @@ func vpRelayCase(r *vfRng, st *vfStats) vfCase {
 			var p ping
 			decode(body, &p)
 			localSeq = p.SeqNo
+			if mode == 7 {
+				// delivered on this goroutine's own stack so that a panic in the handler is observed, not fatal
+				seq := p.SeqNo
+				go func() {
+					time.Sleep(at / 2)
+					defer func() {
+						if recover() != nil {
+							handlerPanicked.Store(true)
+						}
+					}()
+					nb, _ := encode(nackRespMsg, &nackResp{SeqNo: seq}, false)
+					m.handleCommand(nb.Bytes(), &net.UDPAddr{IP: net.IP{10, 0, 0, 77}, Port: 7946}, time.Now())
+				}()
+				arrivals = append(arrivals, []int64{1, 0, vpUs(at / 2)})
+			}
 			switch mode {
-			case 1, 2:
+			case 1, 2, 6, 7:
 				tr.inject(to, ackRespMsg, &ackResp{SeqNo: p.SeqNo}, at)
 				arrivals = append(arrivals, []int64{0, 0, vpUs(at)})
 				if mode == 2 {
@@ -377,7 +412,9 @@ func vpRelayCase(r *vfRng, st *vfStats) vfCase {
 	if c.Ops == nil {
 		c.Ops = [][]int64{}
 	}
-	c.Obs = [][]int64{{int64(acks), int64(nacks), int64(acksOK), vwBool(localSeq != reqSeq), int64(nh)}}
+	mu.Lock()
+	c.Obs = [][]int64{{int64(acks), int64(nacks), int64(acksOK), vwBool(localSeq != reqSeq), int64(nh), vwBool(handlerPanicked.Load())}}
+	mu.Unlock()
 	m.Shutdown()
 	st.Ops++
 	st.OpHist["relay"]++
